@@ -78,7 +78,7 @@ def run(rep, tier):
             srcs = [s["d"]] if s["op"].endswith("_assign") else [s["a"]]
             if s["op"] in ("mul_into", "mul_assign", "mul_add_ct", "mul_sub_ct", "dot_ct", "mul_many"):
                 srcs.append(s["b"])
-            if s["op"] in ("dot_ct", "mul_many"):
+            if s["op"] in ("dot_ct", "mul_many") or (s["op"] in ("dot_ptv", "dot_ptz") and s["bits"] == 2):
                 srcs.append(s["c"])
             if s["op"] == "dot_ct":
                 srcs.append(s["bits"])
@@ -99,7 +99,7 @@ def run(rep, tier):
     rep.evaluations += sum(len(e["outs"]) for e in events)
     rep.distinct += len(events)
     rep.rule = ("%d random straight-line programs of 12 steps over 4 registers (TLC simulation of Gen_C16, whose transition function IS Ckks.tla's metadata state machine, so programs walk into "
-                "budget exhaustion, missing keys, multiplication underflow, destinations smaller / larger than the natural result, in-place forms, re-allocation, vector and constant plaintext operands of their own precision (add / sub / mul, out of place and in place), the fused dst (+-)= a * (ciphertext | vector | constant) forms as compositions of the plain outcomes, add_many, mul_many, ciphertext dot products) on FFT64Ref/Avx (base2k 19) and "
+                "budget exhaustion, missing keys, multiplication underflow, destinations smaller / larger than the natural result, in-place forms, re-allocation, vector and constant plaintext operands of their own precision (add / sub / mul, out of place and in place), the fused dst (+-)= a * (ciphertext | vector | constant) forms as compositions of the plain outcomes, add_many, mul_many, ciphertext dot products, the limb-form (znx) vector and constant operands including a foreign radix and a mis-encoded constant, plaintext-weighted dot products over vectors / constants in both forms, align) on FFT64Ref/Avx (base2k 19) and "
                 "NTT120Ref/Avx (base2k 52), N=64; CkksTrace replays every program on the specification and compares per step: outcome class (Ok / the named error / never a panic), the "
                 "destination's (log_delta, log_budget, stored bits), log_delta+log_budget <= stored bits on whatever the library reports, and the largest slot error against the same program "
                 "on complex numbers (f64) below the specification's worst-case error model (proportional to 2^-log_delta); distinct = programs" % len(events))
@@ -107,5 +107,5 @@ def run(rep, tier):
     log("[C16] %d programs, %d steps, %d rejected" % (len(events), rep.evaluations, len(bad)))
     rep.assumptions += ["f64 plaintext element type only (f128 is a dev-dependency of the crate's tests, not available to the harness)",
                         "operations covered: encrypt, add/sub/neg, mul/square, mul/div by powers of two, rescale, rotate/conjugate, compact/reallocate (into and in-place forms), plaintext vector / constant operands (f64 rnx forms with an explicit precision), "
-                        "multiply-add / multiply-sub, add_many, mul_many (3 factors) and the ciphertext dot product (2 pairs); the znx plaintext forms and the plaintext dot products are not driven",
+                        "multiply-add / multiply-sub, add_many, mul_many (3 factors) and the ciphertext dot product (2 pairs); ckks_extract_pt_znx only through ckks_decrypt; f128 plaintexts not driven",
                         "values are kept below the headroom by the generator (the API cannot know magnitudes); slot values on the unit circle"]
